@@ -21,6 +21,34 @@ def scrape_guards(text, iface):
     return out
 
 
+def counts_first(cond):
+    """the comparison of the counts word must be evaluated before any slot is read"""
+    k = cond.find("ObjectCounts_pack")
+    a = re.search(r"a\[\d+\]", cond)
+    return k >= 0 and (a is None or k < a.start())
+
+
+def scrape_guard_order_c(text, iface):
+    bad = []
+    for label, body in scrape.c_skel_blocks(text, iface):
+        m = re.search(r"prefix##(\w+)\(me", body)
+        if m and not counts_first(body.split("break;")[0]):
+            bad.append(m.group(1))
+    return bad
+
+
+def scrape_guards_cpp(text, iface):
+    """{method: ([(slot, size)], counts-first?)} from class <iface>ImplBase"""
+    m = re.search(r"class %sImplBase\b.*?\n\};" % re.escape(iface), text, re.S)
+    out = {}
+    if not m:
+        return out
+    for mm in re.finditer(r"case OP_(\w+): \{\s*if \((.*?)\) \{\s*break;", m.group(0), re.S):
+        cond = mm.group(2)
+        out[mm.group(1)] = ([(int(a), int(b)) for a, b in re.findall(r"a\[(\d+)\]\.b\.size != (\d+)", cond)], counts_first(cond))
+    return out
+
+
 def run(ctx_):
     prop, tier, seed, work = ctx_["prop"], ctx_["tier"], ctx_["seed"], ctx_["work"]
     nb = 6 if tier == "quick" else 120
@@ -55,6 +83,7 @@ def run(ctx_):
     rc, out, err = vlib.run([ctx_["harness"], "front", cf], timeout=600)
     hres = vlib.parse_harness(out)
     defs, gdefs = [], []
+    order_bad, ncpp = {}, {}
     for b, (c, fs, methods, opt, omit) in enumerate(batches):
         root = os.path.join(work, "b%d" % b)
         h = hres.get(str(b))
@@ -64,8 +93,15 @@ def run(ctx_):
         scrape.idlc_run(ctx_["idlc"], os.path.join(root, "l2.idl"), os.path.join(root, "l2_invoke.h"), "c", True)
         sg = scrape_guards(scrape.rd(os.path.join(root, "l2_invoke.h")), "IL2")
         g = "[%s]" % "; ".join('("%s", [%s])' % (m, "; ".join("(%d, %d)" % x for x in gs)) for m, gs in sg.items())
+        order_bad[b] = [("C", m) for m in scrape_guard_order_c(scrape.rd(os.path.join(root, "l2_invoke.h")), "IL2")]
+        scrape.idlc_run(ctx_["idlc"], os.path.join(root, "l2.idl"), os.path.join(root, "l2.hpp"), "cpp", False)
+        scrape.idlc_run(ctx_["idlc"], os.path.join(root, "l2.idl"), os.path.join(root, "l2_invoke.hpp"), "cpp", True)
+        sgpp = scrape_guards_cpp(scrape.rd(os.path.join(root, "l2_invoke.hpp")), "IL2")
+        order_bad[b] += [("C++", m) for m, (gs, first) in sgpp.items() if not first]
+        gpp = "[%s]" % "; ".join('("%s", [%s])' % (m, "; ".join("(%d, %d)" % x for x in gs)) for m, (gs, first) in sgpp.items())
+        ncpp[b] = len(sgpp)
         defs.append((b, "Definition f_%d : list ast := %s.\n" % (b, h["files"]),
-                     '(chk_l2_classes f_%d "IL2" ++ [777] ++ chk_guards f_%d "IL2" %s)%%list' % (b, b, g)))
+                     '(chk_l2_classes f_%d "IL2" ++ [777] ++ chk_guards f_%d "IL2" %s ++ chk_guards f_%d "IL2" %s)%%list' % (b, b, g, b, gpp)))
     evald, errors = vlib.eval_cases(os.path.join(work, "coq"), "cls", "", defs, shard_size=4)
     for e in errors:
         res["corr_broken"].append({"kind": "case-evaluation", "detail": e})
@@ -78,8 +114,9 @@ def run(ctx_):
             return b, None
         cl = ev[:ev.index(777)]
         gbad = ev[ev.index(777) + 1]
+        gbad_cpp = ev[ev.index(777) + 2] if len(ev) > ev.index(777) + 2 else 999
         clean = [m[0] for m, k in zip(methods, cl) if k == 0]
-        out = {"guard_mismatch": gbad, "bad": [], "n": 0, "nclean": len(clean)}
+        out = {"guard_mismatch": gbad, "guard_mismatch_cpp": gbad_cpp, "bad": [], "n": 0, "nclean": len(clean)}
         if not clean:
             return b, out
         src = l2c.generate(c, "IL2", methods, [0], 0, only=clean, perturb=True, omit_impl=omit, optional=opt)
@@ -127,13 +164,18 @@ def run(ctx_):
         nenv += out["n"]; distinct += out["nclean"]
         if out["guard_mismatch"]:
             res["corr_broken"].append({"kind": "correspondence", "detail": "%d methods of batch %d: guards scraped from the C skeleton differ from the refusal model" % (out["guard_mismatch"], b)})
+        if out.get("guard_mismatch_cpp"):
+            res["corr_broken"].append({"kind": "correspondence", "detail": "%s methods of batch %d: guards scraped from the C++ skeleton differ from the refusal model" % (out["guard_mismatch_cpp"], b)})
+        for lang, mname in order_bad.get(b, [])[:4]:
+            res["failures"].append({"property": prop, "idl": text, "method": mname,
+                                    "what": "%s skeleton: the guard of %s reads argument slots before it has compared the counts word (an envelope with fewer slots than the method's is read out of bounds before it is refused)" % (lang, mname)})
         for bad in out["bad"][:8]:
             res["failures"].append({"property": prop, "idl": text, "method": bad[0], "perturbation": bad[1], "what": "skeleton: %s (%s %s)" % (bad[2][:500], bad[0], bad[1])})
     res["coverage"] = {
         "evaluations": nenv, "distinct_nontrivial": distinct,
         "rule": "%d generated interfaces of 12 methods (25%% optional, half of those without implementation); per method outside the known classes: every "
                 "counts nibble +-1 and set to 0/15, every fixed-size buffer size in {0, n-1, n+1, 2^32}, ops n+5 / 0x3FFF / 0x7FFD, op|REMOTE_BUFS, then a "
-                "well-formed call; argument arrays sized by the perturbed counts, buffers by the declared sizes, gcc ASan+UBSan" % nb,
+                "well-formed call; guards of the C and the C++ skeleton (slots, sizes, counts compared first) against the model; argument arrays sized by the perturbed counts, buffers by the declared sizes, gcc ASan+UBSan" % nb,
         "samples": [{"idl": gen.render_file(batches[0][1]["files"][0])[:500]}],
     }
     res["trusted_extra"] = ["lib/l2c.py perturb_code (C driver), gcc with ASan/UBSan"]
